@@ -225,6 +225,11 @@ Fixpoint after_kth (k : nat) (tr : list bev) : list bev :=
 (* backend operations issued after the context ended inside the k-th one *)
 Definition ops_after (k : nat) (tr : list bev) : nat := head_run (after_kth k tr).
 
+(* the run ends with an error exactly when a check point follows the operation in which the context ended;
+   otherwise every remaining operation is executed and the call succeeds *)
+Fixpoint has_chk (tr : list bev) : bool := match tr with [] => false | ChkD _ :: _ => true | Op :: t => has_chk t end.
+Definition errors_out (k : nat) (tr : list bev) : bool := has_chk (after_kth k tr).
+
 (* longest stretch of backend operations without a check point (clean-up included) *)
 Fixpoint max_gap_aux (cur : nat) (tr : list bev) : nat :=
   match tr with
@@ -388,8 +393,12 @@ Definition gc_after_cancel_all_started (cs : list tree) : nat :=
 (* (tl (tl _)): the goroutine's test has passed and its first backend operation is in flight when the context ends) *)
 
 (* the trees the harness builds: /t/src = a/b/c.txt, [big.bin], dNNN/fNNN.txt, eNNN/ (listing order) *)
-Definition spec_tree (dirs files : nat) (big : nat) (empty : nat) : tree :=   (* big = chunks of big.bin, 0: absent *)
-  D ([D [D [F 1]]] ++ (match big with O => [] | _ => [F big] end) ++ repeat (D (repeat (F 1) files)) dirs ++ repeat (D []) empty).
+(* zzz/ = a.txt and then, as LAST entry, the next level *)
+Fixpoint deep_chain (n : nat) : list tree :=
+  match n with O => [] | S m => [D (F 1 :: deep_chain m)] end.
+Definition spec_tree (dirs files : nat) (big : nat) (empty : nat) (deep : nat) : tree :=   (* big = chunks of big.bin, 0: absent *)
+  D ([D [D [F 1]]] ++ (match big with O => [] | _ => [F big] end) ++ repeat (D (repeat (F 1) files)) dirs ++ repeat (D []) empty
+     ++ deep_chain deep).
 
 (* ---------- correspondence ---------- *)
 Inductive opk :=
@@ -403,6 +412,7 @@ Inductive opk :=
 | OpListTreeAfter (t : tree) (k after : nat)
 | OpEpTotal (e : epk) (t : tree) (total : nat)               (* backend operations of an uncancelled run *)
 | OpEpAfter (e : epk) (t : tree) (k after : nat)              (* ... issued after cancelling inside the k-th *)
+| OpEpOutcome (e : epk) (t : tree) (k : nat) (errored : bool)  (* did the call cancelled inside the k-th operation fail? *)
 | OpEpBound (e : epk) (observed_max : nat)
 | OpGcAfter (fanout after : nat)                              (* flat directory of [fanout] files, barrier schedule *)
 | OpBound (observed_max bound : nat).
@@ -460,6 +470,7 @@ Definition check_case (c : case) : bool :=
   | OpListTreeAfter t k after => Nat.eqb (ops_after k (listtree_entry t)) after
   | OpEpTotal e t total => Nat.eqb (ops (ep_trace e t)) total
   | OpEpAfter e t k after => Nat.eqb (ops_after k (ep_trace e t)) after
+  | OpEpOutcome e t k errored => Bool.eqb (errors_out k (ep_trace e t)) errored
   | OpEpBound e m => Nat.leb m (ep_bound e)
   | OpGcAfter n after =>   (* robust to harmless extra/fewer Stat calls: >= 1 per goroutine, <= 2x the model's count *)
       Nat.leb n after && Nat.leb after (2 * gc_after_cancel_all_started (repeat (F 1) n))
